@@ -27,7 +27,9 @@ static Case gen_case() {
     Case c;
     // names on/off; mask of thread slots launched pinned to a cpu that does not exist (create fails with EINVAL,
     // the library retries unpinned)
-    c.cfg = {pick(0, 1), chance(35) ? pick(0, (1u << NSLOT) - 1) : 0};
+    // third: mask of joinable slots that take part in the managed-thread count the way event-loop threads do
+    // (aws_thread_increment_unjoined_count at start, aws_thread_decrement_unjoined_count at the end)
+    c.cfg = {pick(0, 1), chance(35) ? pick(0, (1u << NSLOT) - 1) : 0, chance(40) ? pick(0, 7) : 0};
     c.ops = op_list(45, [] {
         if (chance(45)) {
             switch (weighted({3, 4, 4, 3, 2, 1, 1})) {
@@ -83,6 +85,9 @@ struct World {
     uint64_t seq = 0;
     bool names = false;
     uint64_t pin_mask = 0;
+    uint64_t participant_mask = 0;
+    int participants = 0;
+    size_t p_inc_started = 0, p_inc_done = 0, p_dec_started = 0, p_dec_done = 0;
     int pinned_launches = 0;
     int at_exits = 0, child_launches = 0;
     std::vector<AtExit *> all_at_exit;
@@ -113,6 +118,13 @@ static void thread_fn(void *arg) {
     s.fn_calls++;
     if (s.fn_calls != 1) w.ctx->note_fail(fmt("thread function of slot %d invoked %d times", s.slot, s.fn_calls));
     s.ds_id = ds::self();
+    bool participant = !s.managed && ((w.participant_mask >> s.slot) & 1);
+    if (participant) {
+        w.participants++;
+        w.p_inc_started++;
+        aws_thread_increment_unjoined_count();
+        w.p_inc_done++;
+    }
     for (auto &op : w.c->ops) {
         if (op.kind != BODY || (int)(op.arg(0) % NSLOT) != s.slot) continue;
         if (w.ctx->failed) break;
@@ -144,6 +156,11 @@ static void thread_fn(void *arg) {
             break;
         default: ds::point(); break;
         }
+    }
+    if (participant) {
+        w.p_dec_started++;
+        aws_thread_decrement_unjoined_count();
+        w.p_dec_done++;
     }
     s.fn_done = true;
     s.finish_seq = ++w.seq;
@@ -208,8 +225,14 @@ static void join_all(World &w) {
     // main is the only top-level launcher and all managed threads are done: nothing can be outstanding
     for (int i = NJ; i < NSLOT; i++)
         if (w.s[i].launching && !ctx.failed) check_thread_finished(w, w.s[i], "after join_all_managed (transitively launched)");
+    // what may still be counted: participants (threads using the increment/decrement pair directly) that are between
+    // their increment and their decrement right now
+    size_t lo = w.p_inc_done - w.p_dec_started, hi = w.p_inc_started - w.p_dec_done;
     size_t cnt = aws_thread_get_managed_thread_count();
-    if (cnt != 0) ctx.note_fail(fmt("managed thread count is %zu after join_all_managed", cnt));
+    size_t lo2 = w.p_inc_done - w.p_dec_started, hi2 = w.p_inc_started - w.p_dec_done;
+    if (cnt < std::min(lo, lo2) || cnt > std::max(hi, hi2))
+        ctx.note_fail(fmt("managed thread count is %zu after join_all_managed (%zu..%zu participants are inside their increment/decrement bracket)", cnt,
+                          std::min(lo, lo2), std::max(hi, hi2)));
 }
 
 static void join_one(World &w, Slot &s) {
@@ -228,6 +251,7 @@ static void run(const Case &c, Ctx &ctx) {
     w.c = &c;
     w.names = c.c(0) % 2 == 1;
     w.pin_mask = c.c(1);
+    w.participant_mask = c.c(2);
     for (int i = 0; i < NSLOT; i++) {
         w.s[i].w = &w;
         w.s[i].slot = i;
@@ -288,6 +312,7 @@ static void run(const Case &c, Ctx &ctx) {
     if (w.child_launches) ctx.tag("managed_launches_managed");
     if (w.at_exits) ctx.tag("at_exit");
     if (w.pinned_launches) ctx.tag("launch_with_impossible_cpu_pin");
+    if (w.participants) ctx.tag("count_participants");
     if (w.timed_out_join_alls) ctx.tag("join_all_timed_out");
     if (w.once_calls) ctx.tag("call_once_on_library_thread");
     PBT_CHECK(w.once_calls <= 1, "aws_thread_call_once ran its function %d times", w.once_calls);
